@@ -81,6 +81,8 @@ def run(ctx, built):
     stream_adjust(ctx, built)
     TS.stream_harvest(ctx, built, ctx.scale(25, 300), harvest_oracle(ctx), max_rows=ctx.scale(160, 600))
     TS.stream_harvest(ctx, built, ctx.scale(4, 40), harvest_oracle(ctx), max_rows=ctx.scale(300, 1500), params="default", name="S-harv-default")
+    # sparse 3-column roots: refinement that cannot be matched, fallback buckets on top of children
+    TS.stream_harvest(ctx, built, ctx.scale(150, 2500), harvest_oracle(ctx), ncols=3, only_full=True, rows=list(range(12, 31)), name="S-harv-small3")
     ES.stream_micro(ctx, built, ctx.scale(12, 120), micro_oracle(ctx))
 
 
